@@ -158,5 +158,38 @@ func fixedHarmless() []mutant {
 			Edits: []edit{{File: "new.go", Old: "\t\tfor fieldID := range docStoredFields { // reset for next doc\n\t\t\tdelete(docStoredFields, fieldID)\n\t\t}", New: "\t\tfor fieldID, isf := range docStoredFields { // reset for next doc\n\t\t\tif len(isf.vals) == 0 {\n\t\t\t\tdelete(docStoredFields, fieldID)\n\t\t\t\tcontinue\n\t\t\t}\n\t\t\tisf.vals = isf.vals[:0]\n\t\t\tisf.typs = isf.typs[:0]\n\t\t\tisf.arrayposs = isf.arrayposs[:0]\n\t\t\tdocStoredFields[fieldID] = isf\n\t\t}"}}},
 		{Harmless: true, ID: "h-full-selectivity-operands-swapped", Prop: "C14", Rule: "R23", Vectors: true,
 			Edits: []edit{{File: "faiss_vector_posting.go", Old: "\t\t\t\tif len(eligibleDocIDs) == int(sb.numDocs) {", New: "\t\t\t\tif allEligible := uint64(len(eligibleDocIDs)) == sb.numDocs; allEligible {"}}},
+		{Harmless: true, ID: "h-r35-decode-masked", Prop: "C12", Rule: "R35",
+			Edits: []edit{{File: "synonym_posting.go", Old: "\treturn uint32(synonymCode >> 32), uint32(synonymCode)", New: "\tsynonymID = uint32((synonymCode >> 32) & 0xffffffff)\n\tdocID = uint32(synonymCode & 0xffffffff)\n\treturn synonymID, docID"}}},
+		{Harmless: true, ID: "h-r35-except-continue-form", Prop: "C12", Rule: "R35",
+			Edits: []edit{{File: "synonym_posting.go", Old: "\t\tif i.except == nil || !i.except.Contains(docNum) {\n\t\t\treturn synID, docNum, true, nil\n\t\t}", New: "\t\tif i.except != nil && i.except.Contains(docNum) {\n\t\t\tcontinue\n\t\t}\n\t\treturn synID, docNum, true, nil"}}},
+		{Harmless: true, ID: "h-r35-except-hoisted", Prop: "C12", Rule: "R35",
+			Edits: []edit{{File: "synonym_posting.go", Old: "\t\tif i.except == nil || !i.except.Contains(docNum) {", New: "\t\tdropped := i.except != nil && i.except.Contains(docNum)\n\t\tif !dropped {"}}},
+		{Harmless: true, ID: "h-r36-writer-nonzero-form", Prop: "C01", Rule: "R36",
+			Edits: []edit{{File: "section_inverted_text_index.go", Old: "\t\t\t\tif freqNorm.freq > 0 {\n\t\t\t\t\terr = tfEncoder.Add(docNum,", New: "\t\t\t\tif freqNorm.freq != 0 {\n\t\t\t\t\terr = tfEncoder.Add(docNum,"}}},
+		{Harmless: true, ID: "h-r36-reader-less-than-one", Prop: "C07", Rule: "R36",
+			Edits: []edit{{File: "posting.go", Old: "\tfreq, hasLocs := decodeFreqHasLocs(freqHasLocs)\n\tif freq == 0 {\n\t\treturn freq, 0, hasLocs, nil\n\t}", New: "\tfreq, hasLocs := decodeFreqHasLocs(freqHasLocs)\n\tif freq < 1 {\n\t\treturn 0, 0, hasLocs, nil\n\t}"}}},
+		{Harmless: true, ID: "h-r36-skip-inverted-branch", Prop: "C07", Rule: "R36",
+			Edits: []edit{{File: "posting.go", Old: "\tif freq == 0 {\n\t\treturn hasLocs, nil\n\t}\n\n\ti.freqNormReader.SkipUvarint() // Skip normBits.\n", New: "\tif freq != 0 {\n\t\ti.freqNormReader.SkipUvarint() // Skip normBits.\n\t}\n"}}},
+		{Harmless: true, ID: "h-r28b-synonym-id-not-restarted", Prop: "C13", Rule: "R28",
+			Edits: []edit{{File: "section_synonym_index.go", Old: "\t\titrs = itrs[:0]\n\t\tnewSynonymID = 0\n", New: "\t\titrs = itrs[:0]\n"}}},
+		{Harmless: true, ID: "h-r28b-maps-cleared-in-place", Prop: "C13", Rule: "R28",
+			Edits: []edit{{File: "section_synonym_index.go", Old: "\t\tsynTermMap := make(map[uint32]string)\n\t\ttermSynMap := make(map[string]uint32)\n", New: "\t\tclear(synTermMap)\n\t\tclear(termSynMap)\n"},
+				{File: "section_synonym_index.go", Old: "\tvar newSynonymID uint32\n\n\t// for each field\n", New: "\tvar newSynonymID uint32\n\tsynTermMap := make(map[uint32]string)\n\ttermSynMap := make(map[string]uint32)\n\n\t// for each field\n"}}},
+		// the repaired forms of the round-6 "slip hidden in a refactoring" seeds: the same
+		// refactoring without the slip (each passes the pinned suite and the seed's own demonstration)
+		{Harmless: true, ID: "h-r6-C01-fixed", Patch: "refactors/r6-C01-fixed.diff"},
+		{Harmless: true, ID: "h-r6-C02-fixed", Patch: "refactors/r6-C02-fixed.diff"},
+		{Harmless: true, ID: "h-r6-C03-fixed", Patch: "refactors/r6-C03-fixed.diff"},
+		{Harmless: true, ID: "h-r6-C04-fixed", Patch: "refactors/r6-C04-fixed.diff"},
+		{Harmless: true, ID: "h-r6-C05-fixed", Patch: "refactors/r6-C05-fixed.diff"},
+		{Harmless: true, ID: "h-r6-C06-fixed", Patch: "refactors/r6-C06-fixed.diff"},
+		{Harmless: true, ID: "h-r6-C07-fixed", Patch: "refactors/r6-C07-fixed.diff"},
+		{Harmless: true, ID: "h-r6-C08-fixed", Patch: "refactors/r6-C08-fixed.diff"},
+		{Harmless: true, ID: "h-r6-C09-fixed", Patch: "refactors/r6-C09-fixed.diff"},
+		{Harmless: true, ID: "h-r6-C11-fixed", Patch: "refactors/r6-C11-fixed.diff"},
+		{Harmless: true, ID: "h-r6-C13-fixed", Patch: "refactors/r6-C13-fixed.diff"},
+		{Harmless: true, ID: "h-r6-C17-fixed", Patch: "refactors/r6-C17-fixed.diff"},
+		{Harmless: true, ID: "h-r6-C18-fixed", Patch: "refactors/r6-C18-fixed.diff"},
+		{Harmless: true, ID: "h-r6-C20-fixed", Patch: "refactors/r6-C20-fixed.diff"},
 	}
 }
